@@ -142,8 +142,14 @@ def fuzz_parse(prop, seed):
     art = os.path.join(ROOT, "work", "fuzz_artifacts", "parse_" + prop) + os.sep
     shutil.rmtree(corp, ignore_errors=True)
     shutil.rmtree(art, ignore_errors=True)
-    os.makedirs(corp)
-    os.makedirs(art)
+    os.makedirs(corp, exist_ok=True)
+    os.makedirs(art, exist_ok=True)
+    for d in (corp, art):
+        for f in os.listdir(d):
+            try:
+                os.remove(os.path.join(d, f))
+            except OSError:
+                pass
     # a few seeds spread over the (grammar, rule) space, both decodings
     for i in range(64):
         h = hashlib.sha256(("%d/%d/%s" % (seed, i, prop)).encode()).digest()
